@@ -218,3 +218,24 @@ Proof. vm_compute. reflexivity. Qed.
 Example ex_c11_gen_getitem_slice_int :
   gen_tie_available = true -> gen_getitem_event true 4 3 (ISlice (mk (Some 1) (Some 3) None)) (IInt 2) = Some [5; 8].
 Proof. intros _. rewrite gen_getitem_event_eq. vm_compute. reflexivity. Qed.
+
+(* ---- "positions valid" for every index form AND every size (Proofs/C11_index_range.v):
+   c11_getitem_positions_in_range above needs 0 < n, 0 < t; this one covers the degenerate laws
+   (n = 0 points or t = 0 tasks) as well, for both layouts and every pair of components
+   int / slice / index tensor, hand-written and regenerated arithmetic *)
+From GPV Require Import Proofs.C11_index_range.
+Theorem c11_getitem_positions_in_range_all_sizes :
+  forall il n t ri ci l k, 0 <= n -> 0 <= t ->
+    getitem_event il n t ri ci = Some l -> In k l -> 0 <= k < n * t.
+Proof. exact getitem_event_in_range_all_sizes. Qed.
+Print Assumptions c11_getitem_positions_in_range_all_sizes.
+
+Theorem c11_gen_getitem_positions_in_range_all_sizes :
+  forall il n t ri ci l k, 0 <= n -> 0 <= t ->
+    gen_getitem_event il n t ri ci = Some l -> In k l -> 0 <= k < n * t.
+Proof. exact gen_getitem_event_in_range_all_sizes. Qed.
+Print Assumptions c11_gen_getitem_positions_in_range_all_sizes.
+
+Example ex_c11_getitem_event_empty :
+  getitem_event false 0 3 (ISlice (mk None None (Some 2))) (ITensor [-1; 0]) = Some [].
+Proof. exact ex_getitem_event_empty. Qed.
